@@ -68,6 +68,12 @@ def data_input(name, pattern, carrier='list_none', symbolic=True, values=None):
         cells = [El(X.NAN, False) if e is None else El(e.d if isinstance(e, Sc) else X.num(e), False) for e in els]
         v = Vec.fresh(cells, kind='nd' if carrier == 'ndarray' else 'series', dtype='f8', owner=name)
         return v
+    if carrier == 'ndarray_f4':
+        # a float32 array: the values are the same numbers, the width is what differs
+        cells = [El(X.NAN, False) if e is None else El(e.d if isinstance(e, Sc) else X.num(e), False) for e in els]
+        v = Vec.fresh(cells, kind='nd', dtype='f8', owner=name)
+        v.narrow = True
+        return v
     if carrier == 'ndarray_int':
         # an integer-typed array cannot hold missing values
         cells = [El(e.d if isinstance(e, Sc) else X.num(e), False) for e in els if e is not None]
